@@ -58,7 +58,9 @@ NeverBlocks == "NeverBlocks" \notin Clauses(obs)
 \* ---- liveness (C08): once the protected function only succeeds, the breaker
 \* ---- closes again and stays admitting; no caller blocks forever
 LiveSpec == /\ MCInit /\ [][MCNextHeal]_mcvars
-            /\ WF_mcvars(MCTick) /\ WF_mcvars(MCStep) /\ WF_mcvars(MCCall)
+            /\ SF_mcvars(MCTick /\ UNCHANGED <<cf, healed>>)
+            /\ WF_mcvars(MCStep /\ UNCHANGED <<cf, healed>>)
+            /\ WF_mcvars(MCCall /\ UNCHANGED <<cf, healed>>)
 Recovers == healed ~> (state = "closed")
 Returns == \A c \in Callers : (pc[c] # "idle") ~> (pc[c] = "idle")
 
@@ -66,6 +68,8 @@ Returns == \A c \in Callers : (pc[c] # "idle") ~> (pc[c] = "idle")
 CfgAll == {[ft |-> f, st |-> s, mr |-> m, iv |-> i, to |-> t] :
              f \in 1..3, s \in 1..3, m \in 1..3, i \in 1..2, t \in 1..2}
 CfgValid == {c \in CfgAll : c.mr >= c.st}
+CfgQuick == {c \in CfgAll : c.iv = 1 /\ c.to = 1}
+CfgStarve == {c \in CfgAll : c.mr < c.st /\ c.iv = 1 /\ c.to = 1}
 CfgSmall == {[ft |-> f, st |-> s, mr |-> m, iv |-> 1, to |-> 1] : f \in 1..2, s \in 1..2, m \in 1..2}
 CfgOne == {[ft |-> 2, st |-> 2, mr |-> 2, iv |-> 2, to |-> 2]}
 CfgBoundary == {[ft |-> 1, st |-> 1, mr |-> 1, iv |-> 1, to |-> 1], [ft |-> 2, st |-> 1, mr |-> 1, iv |-> 1, to |-> 1],
